@@ -28,7 +28,9 @@ F = [
  ("C10","F3","fixed",commit("alt attribute"),"known/C10/F3-img-alt-br.json","<br> inside img alt breaks the XHTML rewrite relation (only ' />' on void elements may differ)"),
  ("C13","F5","fixed",commit("InsertBefore"),"known/C13/F5-insertbefore-nil.json","InsertBefore with a nil reference counted the child twice"),
  ("C13","F5b","fixed",commit("InsertBefore"),"known/C13/F5-insertbefore-foreign.json","InsertBefore relative to a foreign node detached the insertee without inserting it"),
- ("C13","F21","fixed",commit("InsertAfter"),"known/C13/F21-insertafter-next-sibling.json","InsertAfter(p, ref, c) with c already the next sibling of ref linked c to itself (cycle in the sibling chain)"),
+ ("C13","F21","fixed",commit("InsertAfter corrupts"),"known/C13/F21-insertafter-next-sibling.json","InsertAfter(p, ref, c) with c already the next sibling of ref linked c to itself (cycle in the sibling chain)"),
+ ("C13","F33","fixed",commit("nil reference node"),"known/C13/F33-insertafter-nil.json","InsertAfter(p, nil, c) panicked (method call on the nil reference) although a reference that is not a child means append; reported as a by-product by a round-6 seeding sub-agent, then generated by the check once nil references were drawn for all three insertion calls"),
+ ("C13","F33b","fixed",commit("nil reference node"),"known/C13/F33-replacechild-nil.json","ReplaceChild(p, nil, c) appended c and then panicked in RemoveChild(nil)"),
  ("C17","F22","fixed",commit("table header"),"known/C17/F22-short-header.json","a header row with fewer cells than the delimiter row was padded and became a table"),
  ("C18","F11","fixed",commit("SetPosition/SetPadding"),"known/C18/F11-setposition-stale-peek.json","source reader SetPosition kept the stale peeked line / line head"),
  ("C18","F23","fixed",commit("ResetPosition"),"known/C18/F23-resetposition.json","source reader ResetPosition resumed at the end of the current line instead of the start of the source"),
